@@ -76,16 +76,38 @@ def asPt (j : Json) : R (Int × Int) := do
   | [x, y] => return (← asInt x, ← asInt y)
   | _ => throw "point"
 
+def ptJ' (p : Int × Int) : Json := Json.arr #[intJ p.1, intJ p.2]
+def drawingJ (d : List (List (Int × Int))) : Json := listJ (listJ ptJ') d
+
 /-- op "vfskip": a variable font compiled with and without a skip list, instantiated at the same locations.
-    in = {skip}; obs = {err} | {orderFull, orderSkip, samples:[[loc, name, advFull, advSkip, drawingFull, drawingSkip]]}.
-    No model of varLib: the declarative predicate is evaluated on the two observed fonts (model = null). -/
+    in = {skip, locs, defaultIdx, masters, at};
+    obs = {err} | {orderFull, orderSkip, samples:[[loc, name, advFull, advSkip, drawingFull, drawingSkip]]}.
+    `holds`: the declarative predicate on the two observed fonts (with vs without the skip list).
+    `model`: what the MODEL family shows at the locations `at` before and after the model's
+    `SkipExportGlyphsIFilter` (`renderAt` of the sources / of `skipFamily`), compared by the harness with the two fonts. -/
 def vfskip (req : Json) : R Reply := do
   let i ← field req "in"
   let skip ← asList asStr (← field i "skip")
   let obs ← field req "obs"
   let oerr ← asOpt asStr (← field obs "err")
+  let (model, hyp) ← (do
+    match i.getObjVal? "masters" with
+    | .error _ => pure (Json.null, Json.null)
+    | .ok mj =>
+      let ms ← asList asGlyphSet mj
+      let I : C09.Inst := { locs := ← asList asRat (← field i "locs"), defaultIdx := ← asNat (← field i "defaultIdx") }
+      let ats ← asList asRat (← field i "at")
+      -- are the hypotheses of `C13_vf_render` met? (`famCert_sound`, `inHull_sound`)
+      let hyp := Json.bool (famCert I ms (depthCert (ms.getD I.defaultIdx [])) && ats.all (inHull I))
+      match skipFamily skip I ms with
+      | .error e => pure (Json.mkObj [("err", gerrJ e)], hyp)
+      | .ok ms' =>
+        pure (Json.mkObj [("err", Json.null), ("samples", listJ (fun (s : Q × String × Option Q × Option Q ×
+            List (List (Int × Int)) × List (List (Int × Int))) =>
+          Json.arr #[ratJ s.1, Json.str s.2.1, optJ ratJ s.2.2.1, optJ ratJ s.2.2.2.1, drawingJ s.2.2.2.2.1,
+            drawingJ s.2.2.2.2.2]) (vfModel skip I ms ms' ats))], hyp) : R (Json × Json))
   match oerr with
-  | some _ => return { model := Json.null, holds := false }
+  | some _ => return { model, holds := false, hyp }
   | none =>
     let orderFull ← asList asStr (← field obs "orderFull")
     let orderSkip ← asList asStr (← field obs "orderSkip")
@@ -96,7 +118,7 @@ def vfskip (req : Json) : R Reply := do
           String × String × Int × Int × List (List (Int × Int)) × List (List (Int × Int)))
       | _ => throw "sample") (← field obs "samples")
     let bad := vfWrong skip orderFull orderSkip samples
-    return { model := Json.null, holds := bad.isEmpty, info := strsJ bad }
+    return { model, holds := bad.isEmpty, info := strsJ bad, hyp }
 
 def handle (op : String) (req : Json) : R Reply :=
   match op with
